@@ -34,11 +34,13 @@ Emit ==
                       mask |-> cs.M, pt |-> PointOf(R, dir, cs), sup |-> Supported(R, dir),
                       outs |-> OutJson(Outcomes(R, dir, cs.cls, cs.M)),
                       dev |-> dev, douts |-> OutJson(IF dev = "" THEN {} ELSE DevOutcomes(dev, R, dir, cs.M))])>>)
-    ELSE LET S == CasesOf(R, dir) IN
+    ELSE LET S == CasesOf(R, dir)  devs == SetDevs(R, dir, S) IN
          PrintT(<<"SET", ToJson([row |-> R.id, def |-> R.def, ctx |-> R.ctx, dir |-> dir,
                       lo |-> SetLo(R, dir, S), hi |-> SetHi(R, dir, S),
-                      devs |-> SetDevs(R, dir, S), dlo |-> DSetLo(R, dir, S), dhi |-> DSetHi(R, dir, S),
+                      \* the bounds with every non-empty subset of the applicable deviation switches on
+                      variants |-> {[on |-> DV, lo |-> DSetLo(DV, R, dir, S), hi |-> DSetHi(DV, R, dir, S)] : DV \in (SUBSET devs) \ {{}}},
                       members |-> {[cls |-> c.cls, mask |-> c.M, pt |-> PointOf(R, dir, c),
                                     outs |-> OutJson(Outcomes(R, dir, c.cls, c.M)),
+                                    dev |-> Deviation(R, dir, c.cls, c.pi, c.M),
                                     douts |-> OutJson(DOutcomes(R, dir, c.cls, c.pi, c.M))] : c \in S}])>>)
 =============================================================================
